@@ -12,7 +12,7 @@ ASAN = ["-O1", "-g", "-fsanitize=address,undefined", "-fno-sanitize-recover=all"
 
 # format -> (quick maxlen, thorough maxlen)
 FORMATS = {
-    "manifest": (4, 5), "manifest_include": (4, 5), "rule_vars": (6, 7), "depfile": (6, 7), "depfile_load": (5, 6), "dyndep": (5, 6), "dyndep_tools": (4, 5), "ninja_log": (6, 7), "ninja_log_records": (5, 6), "ninja_deps": (4, 5),
+    "manifest": (4, 5), "manifest_include": (4, 5), "rule_vars": (6, 7), "version_lines": (5, 6), "depfile": (6, 7), "depfile_load": (5, 6), "dyndep": (5, 6), "dyndep_tools": (4, 5), "ninja_log": (6, 7), "ninja_log_records": (5, 6), "ninja_deps": (4, 5),
     "showincludes": (5, 6), "makeflags": (5, 6), "ninja_status": (5, 6), "status_opt": (5, 6), "elide": (7, 8),
     "canonpath": (8, 10),
 }
